@@ -258,9 +258,9 @@ Print Assumptions C08_exec_total.
    (C08_refines_tilde_partial), r (C08_refines_replace_partial), p P of one-line character-wise text and of
    line-wise text (C08_refines_put_chars_partial, C08_refines_put_lines_partial), i a with plain typed text
    (C08_refines_insert_plain_partial), Y (C08_refines_Y_partial), s C with plain typed text
-   (C08_refines_s_C_plain_partial), >> << (C08_refines_shift_partial).  The references are the small functions ref_span, ref_line_delete,
+   (C08_refines_s_C_plain_partial), S (C08_refines_S_plain_partial), >> << (C08_refines_shift_partial).  The references are the small functions ref_span, ref_line_delete,
    ref_tilde, ref_replace, ref_put_off, ref_put_row, ref_ins_off of ViDefs.v on the BODY of the cursor line.
-   MISSING: S J and d c y g~ gu gU with arbitrary motions (< > with a motion other than the doubled key), I A o O, inserts containing editing keys, newlines or only
+   MISSING: J and d c y g~ gu gU with arbitrary motions (< > with a motion other than the doubled key), I A o O, inserts containing editing keys, newlines or only
    blanks (autoindent), puts of character-wise text containing a newline, and the composition over whole
    programs; the sticky column and the window top are not part of the statements.  Those commands are mirrored
    only and tied to the independent reference Ref8 and to the code by the correspondence run. *)
@@ -378,6 +378,21 @@ Theorem C08_refines_shift_partial : forall rows e (right : bool) cnt e1 l0,
   v_off (s_vs e1) = ren_noeol (getl b' (v_row s)) (lbuf_indents b' (v_row s)).
 Proof. exact refines_shift. Qed.
 Print Assumptions C08_refines_shift_partial.
+(* S / cc with a count, typing plain text that contains a non-blank: the n lines from the cursor row (clamped) become
+   the single line <leading blanks of the first line> ++ typed text; the register holds the removed lines, line-wise;
+   the cursor lands on the last typed character *)
+Theorem C08_refines_S_plain_partial : forall rows e y cnt typed e1 l0, plain_reg y ->
+  let b := s_buf e in let s := s_vs e in
+  buf_wf b -> cursor_ok b (v_row s) (v_off s) -> getl b (v_row s) = Some l0 -> 0 <= cnt ->
+  forallb plain_key typed = true -> existsb (fun c => negb (is_blankc c)) typed = true ->
+  exec1 rows (c_S y cnt typed) e = Some e1 ->
+  let r2 := Z.min (v_row s + Z.max 1 cnt - 1) (blen b - 1) in
+  let ind := fst (span_blank l0) in
+  s_buf e1 = firstn (Z.to_nat (v_row s)) b ++ [ind ++ typed ++ [nlc]] ++ skipn (Z.to_nat (r2 + 1)) b /\
+  reg_get (s_regs e1) y = Some (ViDefs.flat (concat (rows_between b (v_row s) (r2 + 1))), true) /\
+  v_row (s_vs e1) = v_row s /\ v_off (s_vs e1) = slen ind + slen typed - 1.
+Proof. exact refines_S_plain. Qed.
+Print Assumptions C08_refines_S_plain_partial.
 Local Open Scope N_scope.
 
 Example C08_nonvacuous :
